@@ -53,7 +53,7 @@ class OptInterp(ObjInterp):
         self.storage_name = None
 
     def is_own_fn(self, f):
-        if f.get('rec') == OPT:
+        if _opt_rec(f.get('rec')):
             return True
         # free helpers of the library that take Optionals (e.g. a both_engaged(lhs, rhs) predicate) are inlined as well
         return not f.get('rec') and f.get('q', '').startswith('rkcommon::utility::') and \
@@ -63,10 +63,25 @@ class OptInterp(ObjInterp):
         return 'EU'
 
     def looks_own(self, sd):
-        if sd.get('rec') == OPT:
+        if _opt_rec(sd.get('rec')):
             return True
         f = self.tu.functions.get(sd.get('def') or sd.get('d'))
         return f is not None and self.is_own_fn(f)
+
+    def on_dtor_elem(self, elem, st, fr):
+        """implicit destruction of a base class that holds the Optional's state: its destructor runs on the same object"""
+        if elem and elem[0] == 'BD' and len(elem) > 1 and any(str(elem[1]).startswith(b + '<') for b in OPT_BASES) and fr.env.get('this'):
+            for f in self.tu.functions.values():
+                if not f.get('dep') and _opt_rec(f.get('rec')) and f['q'].split('::')[-1].startswith('~') and \
+                        f.get('rect', '').replace(' ', '') == str(elem[1]).replace(' ', '') and self.tu.cfg(f) is not None:
+                    outs = self.run_fn(f, {'this': fr.env['this']}, st, fr, None, 2)
+                    res = []
+                    for s2, _ in outs:
+                        if s2 not in res:
+                            res.append(s2)
+                    return res
+            self.undecided.append('destructor of the base class %s has no body to analyse' % elem[1])
+        return [st]
 
     # ---- expression evaluation
     def field_obj(self, e, fr, name):
@@ -341,11 +356,28 @@ class OptInterp(ObjInterp):
         return [st]
 
 
+OPT_BASES = set()       # template names of base classes of Optional that hold its state (filled by opt_fields)
+
+
+def _opt_rec(rec):
+    return rec == OPT or (rec in OPT_BASES if rec else False)
+
+
 def opt_fields(tu):
-    """(flag field name, storage field name) from any instantiated Optional record"""
+    """(flag field name, storage field name) from any instantiated Optional record; the two members may live in a base class of
+    Optional (a slot class), whose members then count as members of Optional"""
     for r in tu.records.values():
         if r.get('tmpl') == OPT and not r.get('lambda'):
             fs = r.get('fields', [])
+            if not fs and len(r.get('bases', [])) == 1:
+                b = r['bases'][0]
+                bid = b.get('id') if isinstance(b, dict) else b
+                br = tu.records.get(bid) or next((x for x in tu.records.values() if x.get('q') == (b.get('q') if isinstance(b, dict) else b)
+                                                  or x.get('type') == (b.get('type') if isinstance(b, dict) else b)), None)
+                if br is not None:
+                    fs = br.get('fields', [])
+                    if br.get('tmpl'):
+                        OPT_BASES.add(br['tmpl'])
             flags = [f for f in fs if f['ct'] == 'bool']
             others = [f for f in fs if f['ct'] != 'bool']
             if len(flags) == 1 and len(others) == 1:
@@ -519,7 +551,12 @@ def check_layout(ctx, tu):
         ta = r['targs'][0]
         if 'align' not in ta:
             continue
-        others = [f for f in r['fields'] if f['ct'] != 'bool']
+        fields = r['fields']
+        if not fields and len(r.get('bases', [])) == 1:
+            br = next((x for x in tu.records.values() if x.get('type') == r['bases'][0] and x.get('tmpl') in OPT_BASES), None)
+            if br is not None:
+                fields = br['fields']       # single base at offset 0: the offsets of its members are those within the Optional
+        others = [f for f in fields if f['ct'] != 'bool']
         if len(others) != 1:
             ctx.broken('W-C09-1: unexpected member list in %s' % r['q'])
             continue
@@ -1388,19 +1425,19 @@ def check_storage_bytes(ctx, tu):
     storage = ff[1]
     nontriv = {}
     for r in tu.records.values():
-        if r.get('tmpl') == OPT and r.get('targs') and r['targs'][0].get('trivially_copyable') is False:
+        if _opt_rec(r.get('tmpl')) and r.get('targs') and r['targs'][0].get('trivially_copyable') is False:
             nontriv[r['id']] = r['targs'][0]['t']
     n = 0
     # address accessors: members whose only use of the storage is to return its (untyped) address; their call sites are classified instead
     accessors = set()
     for f in tu.functions.values():
-        if f['dep'] or f.get('rec') != OPT or f.get('recid') not in nontriv or tu.body(f) is None:
+        if f['dep'] or not _opt_rec(f.get('rec')) or f.get('recid') not in nontriv or tu.body(f) is None:
             continue
         us = [x for x in tu.walk(tu.node(f['id']) or tu.body(f)) if x.get('kind') == 'MemberExpr' and x.get('name') == storage]
         if us and all(_classify_storage_use(tu, u, nontriv[f['recid']]) == ('und', 'untyped byte pointer returned') for u in us):
             accessors.add(f['id'])
     for f in sorted(tu.functions.values(), key=lambda x: (x['q'], x['fty'])):
-        if f['dep'] or f.get('rec') != OPT or f.get('recid') not in nontriv or tu.body(f) is None:
+        if f['dep'] or not _opt_rec(f.get('rec')) or f.get('recid') not in nontriv or tu.body(f) is None:
             continue
         payload = nontriv[f['recid']]
         inst = '%s %s' % (f['q'].replace('rkcommon::utility::', ''), f['fty'].replace('rkcommon::utility::', ''))
@@ -1901,7 +1938,7 @@ def check_optional_init_style(ctx, tu):
     n = 0
     seen = set()
     for f in sorted(tu.functions.values(), key=lambda x: (x['q'], x['fty'])):
-        if f.get('rec') != OPT or tu.body(f) is None:
+        if not _opt_rec(f.get('rec')) or tu.body(f) is None:
             continue
         for x in tu.walk(tu.body(f)):
             if x.get('kind') != 'CXXNewExpr' or not tu.sd(x).get('nplace', 0):
